@@ -863,5 +863,47 @@ func TestC17(t *testing.T) {
 		}
 		R.Set("scale_results", n)
 	}
+	c17Long(R)
 	R.Finish(t)
+}
+
+// c17Long: series far longer than any default a tool might have in mind, with
+// threshold 0, without a Downsample option at all, and with a threshold equal
+// to the count: every result is plotted.
+func c17Long(R *ev.Run) {
+	for _, n := range []int{4001, 4500, 9000} {
+		rs := make([]c17Res, n)
+		for i := range rs {
+			rs[i] = c17Res{attack: "a", seq: uint64(i), ts: c17T0.Add(time.Duration(i) * time.Millisecond), lat: time.Duration(c17Shape(1, i) * 1e6), fail: i%10 == 9}
+		}
+		order := make([]int, n)
+		for i := range order {
+			order[i] = i
+		}
+		for vi, opts := range [][]Opt{nil, {Downsample(0)}, {Downsample(n)}} {
+			R.Eval(1)
+			R.Trans(n + 2)
+			R.Distinct(fmt.Sprint("long", n, vi))
+			ctx := fmt.Sprintf("n=%d option=%s", n, []string{"none", "Downsample(0)", "Downsample(n)"}[vi])
+			p, err := c17Plot(rs, order, opts...)
+			if err != nil {
+				R.Violation("plot:long-series:add-error", ctx+": "+err.Error())
+				continue
+			}
+			rows, labels, derr := c17Data(p)
+			if derr != nil {
+				R.Violation("plot:long-series:data-error", ctx+": "+derr.Error())
+				continue
+			}
+			pts, bad := c17Decode(rows, labels)
+			if len(bad) > 0 {
+				R.Violation("plot:long-series:"+bad[0].key, ctx+": "+fmt.Sprint(bad[0].detail))
+				continue
+			}
+			if len(pts) != n {
+				R.Violation("plot:long-series:points-missing", fmt.Sprintf("%s: %d points plotted for %d results", ctx, len(pts), n))
+			}
+		}
+	}
+	R.Part("long-series", "cases", 9)
 }
